@@ -61,10 +61,19 @@ def default_shape() -> dict:
 _sessions: dict = {}
 
 
+def local_address_of(shape: dict) -> tuple[str, str]:
+    """(local, peer) address of the session as configured; `la` = k picks the k-th pair so that several
+    neighbours of one speaker have different local addresses."""
+    k = int(shape.get('la', 0))
+    if shape['v6']:
+        return (V6_LOCAL, V6_PEER) if k == 0 else (f'2001:db8:ffff:{k}::1', f'2001:db8:ffff:{k}::2')
+    return (V4_LOCAL, V4_PEER) if k == 0 else (f'10.255.{k}.1', f'10.255.{k}.2')
+
+
 class Session:
     def __init__(self, shape: dict) -> None:
         self.shape = dict(shape)
-        la, pa = (V6_LOCAL, V6_PEER) if shape['v6'] else (V4_LOCAL, V4_PEER)
+        la, pa = local_address_of(shape)
         self.local_address = la
         cfg, n = sessions.make_config(local_as=shape['las'], peer_as=shape['pas'], families=FAM_TEXT, add_path=bool(shape['ap']), local_address=la, peer_address=pa)
         _, p = sessions.make_config(local_as=shape['pas'], peer_as=shape['las'], families=FAM_TEXT, add_path=bool(shape['ap']), local_address=pa, peer_address=la)
@@ -343,7 +352,7 @@ def expected(req: dict, shape: dict, words: str) -> dict:
     )
     nh = req['nh']
     if nh[0] == 'self':
-        local = V6_LOCAL if shape['v6'] else V4_LOCAL
+        local = local_address_of(shape)[0]
         nhx = ip_bytes(local).hex() if (':' in local) == (afi == 2) else None
     else:
         nhx = ip_bytes(nh[1]).hex()
@@ -478,6 +487,62 @@ def impl_encode(sess: Session, req: dict) -> tuple:
     if m[:16] != b'\xff' * 16 or int.from_bytes(m[16:18], 'big') != len(m) or m[18] != 2:
         return ('raised', 'bad-header')
     return ('sent', m[19:].hex())
+
+
+def pack_route(sess: Session, route: Any) -> tuple:
+    try:
+        msgs = [bytes(m) for m in UpdateCollection([RoutedNLRI(route.nlri, route.nexthop)], [], route.attributes).messages(sess.neg)]
+    except Exception as e:
+        return ('raised', type(e).__name__)
+    if not msgs:
+        return ('nothing',)
+    if len(msgs) > 1:
+        return ('multi', [m[19:].hex() for m in msgs])
+    return ('sent', msgs[0][19:].hex())
+
+
+def impl_encode_shared(sesss: list[Session], req: dict, order: list[int]) -> list[tuple] | tuple:
+    """ONE Route object parsed once, handed to the real `Configuration.announce_route(peers, route)` over
+    several real neighbours (what the API `announce route` and `inject_route` do); what each neighbour's
+    Adj-RIB-Out receives is then packed for that neighbour's session. `order` = the neighbours in the order
+    they are served (indices into sesss, repetitions allowed: a neighbour served again later).
+    Returns one outcome per entry of `order`."""
+    text = req_text(req)
+    cfg = sesss[0].cfg
+    try:
+        routes = cfg.parse_route_text(text)
+    except Exception as e:
+        return ('refused', type(e).__name__)
+    if len(routes) != 1:
+        return ('refused', f'{len(routes)} routes')
+    route = routes[0]
+    if req.get('obj_aspath') is not None:
+        segs = [(SEQUENCE if t == 2 else SET)([ASN(a) for a in asns]) for t, asns in req['obj_aspath']]
+        route.attributes.add(AS2Path.make_aspath(segs, asn4=True))
+    saved = cfg.neighbors
+    outs: list[tuple] = []
+    try:
+        for i in order:
+            s = sesss[i]
+            got: list = []
+            rib_out = s.n.rib.outgoing
+            original = rib_out.add_to_rib
+            rib_out.add_to_rib = lambda r, *a, **k: got.append(r)  # the Adj-RIB-Out only records what it is given
+            cfg.neighbors = {'only': s.n}
+            try:
+                cfg.announce_route(['only'], route)
+            except Exception as e:
+                outs.append(('raised', type(e).__name__))
+                continue
+            finally:
+                rib_out.add_to_rib = original
+            if len(got) != 1:
+                outs.append(('refused', f'{len(got)} routes reached the RIB'))
+                continue
+            outs.append(pack_route(s, got[0]))
+    finally:
+        cfg.neighbors = saved
+    return outs
 
 
 def model_outcome(line: str) -> tuple:
